@@ -71,6 +71,7 @@ class Num:
 
 
 OPAQUE = {'on': False}
+FEEDBACK = {'names': None}
 
 
 def kind_of(e):
@@ -197,10 +198,13 @@ def mk_event(eid, ts, kind, data):
         data = Num(data)           # every other event carries its number as a value without JSON form
     if kind == 's':
         return BoboEventSimple(eid, ts, data)
+    # complex / action events fed (back) into the stream carry the names of a phenomenon and a pattern: those of somebody
+    # else, or -- every other one -- those of a pattern of THIS configuration (FEEDBACK['names'], set by the driver)
+    ph, pa = ('xphen', 'xpat') if (FEEDBACK['names'] is None or sum(map(ord, str(eid))) % 2) else FEEDBACK['names']
     if kind == 'c':
-        return BoboEventComplex(eid, ts, data, 'xphen', 'xpat', BoboHistory({}))
+        return BoboEventComplex(eid, ts, data, ph, pa, BoboHistory({}))
     if kind == 'a':
-        return BoboEventAction(eid, ts, data, 'xphen', 'xpat', 'xact', True)
+        return BoboEventAction(eid, ts, data, ph, pa, 'xact', True)
     raise ValueError(kind)
 
 
